@@ -47,4 +47,20 @@ def vzip (f : Rat → Rat → Rat) (a b : List Rat) : Option (List Rat) :=
 def vmean (v : List Rat) : Option Rat :=
   if v.length = 0 then none else some (v.foldl (· + ·) 0 / (v.length : Rat))
 
+/-- `v < t` for a vector and a scalar: a boolean mask -/
+def ltMask (v : List Rat) (t : Rat) : List Bool := v.map fun a => decide (a < t)
+
+/-- `np.sum(mask)` -/
+def countTrue (m : List Bool) : Nat := (m.filter id).length
+
+def scatterAux : List Rat → List Bool → List Rat → List Rat
+  | _ :: xs, true :: ms, v :: vs => v :: scatterAux xs ms vs
+  | x :: xs, false :: ms, vs => x :: scatterAux xs ms vs
+  | xs, _, _ => xs
+
+/-- `x[mask] = vals` for a boolean mask as long as `x` (IndexError otherwise) and as many values as the mask has True entries
+    (the one case of broadcasting, a single value for several positions, is not modelled) -/
+def maskScatter (x : List Rat) (m : List Bool) (vals : List Rat) : Option (List Rat) :=
+  if m.length = x.length ∧ vals.length = countTrue m then some (scatterAux x m vals) else none
+
 end TFV.NpQ
